@@ -364,6 +364,7 @@ def check(ctx):
 
     # ---- C17.str -----------------------------------------------------------------------------------------------------------
     _str_rule(ctx, tb)
+    _trim_rule(ctx, tb)
 
     # ---- C17.flatten-shape ----------------------------------------------------------------------------------------------------
     _flatten_rule(ctx)
@@ -441,6 +442,61 @@ def _str_by_interpretation(ctx, tb: ClassInfo, m: FuncInfo):
     except Undecided:
         return None
     return bad
+
+
+def _trim_rule(ctx, tb: ClassInfo):
+    """C17.trim: TextBlock.trim interpreted (dznverif.scenario, E7) on line buffers of zero to four lines over
+    {'', ' ', 'x'}, both with and without end_only.  Trimming only looks at whether a line is empty, so these buffers cover
+    every pattern of empty / blank / text lines at the two ends.  The result has to be a contiguous part of the buffer; what is
+    cut off at the ends are blank lines only (and nothing at the start with end_only); and no empty line is left at an end
+    that is trimmed - a buffer of empty lines only becomes empty."""
+    from ..scenario import Interp, Obj, Raised, Undecided
+    import itertools
+    run, prog = ctx.run, ctx.prog
+    m = tb.methods.get('trim')
+    if m is None:
+        return
+    bad: List[str] = []
+    n = 0
+    try:
+        for length in range(0, 5):
+            for lines in itertools.product(('', ' ', 'x'), repeat=length):
+                for end_only in (False, True):
+                    it = Interp(prog)
+                    o = it.construct(tb, [list(lines)], {})
+                    n += 1
+                    label = f'lines {list(lines)!r}, end_only={end_only}'
+                    try:
+                        it.call_function(m, [end_only], {}, self_val=o)
+                    except Raised as exc:
+                        bad.append(f'{label}: raises {exc.name.split(".")[-1]}')
+                        continue
+                    got = it.getattr(o, 'lines', m, 0)
+                    if not isinstance(got, list) or not all(isinstance(x, str) for x in got):
+                        raise Undecided('lines after trim() are not a list of strings')
+                    src = list(lines)
+                    cuts = [(i, j) for i in range(len(src) + 1) for j in range(i, len(src) + 1) if src[i:j] == got]
+                    ok = False
+                    for i, j in cuts:
+                        if any(x.strip() for x in src[:i] + src[j:]):
+                            continue            # text was cut off
+                        if end_only and i != 0:
+                            continue
+                        if got and got[-1] == '':
+                            continue
+                        if got and not end_only and got[0] == '':
+                            continue
+                        ok = True
+                    if not got and any(x.strip() for x in src):
+                        ok = False
+                    if not ok:
+                        bad.append(f'{label} -> {got!r}')
+    except Undecided as exc:
+        run.remark(f'C17: TextBlock.trim could not be interpreted ({exc}); not decided')
+        return
+    run.add('C17.trim', m.module.name, m.qualname, f'{n} line buffers x end_only', not bad,
+            'trim() removes exactly the empty lines at the start (unless end_only) and at the end, and nothing else' if not bad else
+            'trim() leaves empty lines at a trimmed end or cuts off something else: ' + '; '.join(bad[:3]))
 
 
 def _str_rule(ctx, tb: ClassInfo):
